@@ -94,6 +94,8 @@ Qed.
 
 Lemma frame_msg_ok pos w st code : msg_ok pos w (Some st) (VErr (mk_err st code None)).
 Proof. cbn. right. reflexivity. Qed.
+Lemma frame_msg_t_ok pos w st code t : msg_ok pos w (Some st) (VErr (mk_err_t st code t)).
+Proof. cbn. right. reflexivity. Qed.
 Lemma Forall_one {A} (P : A -> Prop) x : P x -> Forall P [x].
 Proof. intros; constructor; [assumption|constructor]. Qed.
 
@@ -108,9 +110,9 @@ Proof.
     + destruct (check_frame _ _ _ fr) as [res|p]; [|discriminate].
       destruct (frame_lanes_valid _ fr _) as [lv|p]; [|discriminate].
       intros H. injection H as <- <-. split; [tr|]. split; [|reflexivity].
-      apply Forall_app_intro; [destruct lv; [apply Forall_one, frame_msg_ok|constructor]|].
+      apply Forall_app_intro; [destruct lv; [apply Forall_one, frame_msg_t_ok|constructor]|].
       constructor; [exact I|].
-      destruct (fres_lane_errs res); destruct (fres_bc_mismatch res); try constructor; try apply Forall_one; try apply frame_msg_ok; constructor.
+      destruct (fres_lane_errs res); destruct (fres_bc_mismatch res); try constructor; try apply Forall_one; try apply frame_msg_t_ok; constructor.
   - intros H. injection H as <- <-. split; [tr|]. split; [|reflexivity]. apply Forall_one, werr_noword_ok.
 Qed.
 
